@@ -253,7 +253,7 @@ def run(ctx):
         seen.add(key)
         ctx.finding("classify:" + key, "%s: %s" % (b["case"]["kind"], b["complaints"][0]), {"kind": "failing-input", "case": b["case"], "complaints": b["complaints"],
                     "how": "Classifier(**kwargs).classify(atoms)"})
-    if broken and not ctx.findings:
+    if broken and not ctx.unknown_findings():
         ctx.finding("unproved", "proof/correspondence broken, no failing input found", {"kind": "broken-obligation", "broken": broken}, found_input=False)
     ctx.coverage["broken"] = [{"what": k, "info": i} for k, i in broken]
     ctx.coverage["correspondence_mismatches"] = len(mism)
